@@ -2,7 +2,7 @@
    Statements over the executable model (join_world with tryj = true), closed by `exact`. *)
 From Coq Require Import List Arith Bool.
 Import ListNotations.
-Require Import ScanFull InstsFull ObligJoin C04Join C11Groups C05Join C02Join.
+Require Import ScanFull InstsFull ObligJoin C04Join C11Groups C05Join C02Join C04When.
 
 (* For all n, child behaviours, histories, both strategies, slice and tuple variants, while not dropped: no result yet, or exactly
    one result o with [Okres true n o P] where P is the list of all child polls made so far:
@@ -16,6 +16,18 @@ Theorem C05_try_join selective tuple scs ops :
   results t = [] \/ exists o, results t = [o] /\ Okres true n o (polls_from 0 t).
 Proof. exact (C05_join selective true tuple scs ops). Qed.
 Print Assumptions C05_try_join.
+
+
+(* "resolves to Ok exactly when every child resolved to Ok ... in the same poll": between operations, after at least one poll, a try_join without a
+   result has seen no failure and still has a child that has not answered its value - so the poll in which the last child answers Ok, or in which a
+   child is first seen to fail, cannot end without the result. *)
+Theorem C05_resolves_when_decided selective tuple scs ops :
+  let n := length scs in let w := join_world selective true tuple scs ops in
+  dropped _ w = false -> (tuple = true -> 0 < n) ->
+  let t := strip (tr _ w) in
+  t <> [] -> results t = [] -> errs (polls_from 0 t) = [] /\ exists i, i < n /\ okl i (polls_from 0 t) = [].
+Proof. exact (C04_when selective true tuple scs ops). Qed.
+Print Assumptions C05_resolves_when_decided.
 
 (* values already produced by other children are dropped, not returned: the ownership ledger over the complete history
    (every child dropped exactly once; #produced v = #returned v + #dropped v for every value v) *)
